@@ -287,6 +287,9 @@ func c01Walk(c *Ctx, s *scanShape) {
 		case ir.IsNilConst(rv) && rootOnly:
 			// the compared value must be the directory being scanned
 			r.OK("C01.2", "dir:root", c.pos(ret), "the scanned directory itself is entered")
+		case rootOnly && c01IsScanFnReport(cb, rv) && subset([]string{"nonnil(param:" + cb.Params[2].Name() + ")"}, g2):
+			// Walk's second call for the scanned directory, with the error of reading it
+			r.OK("C01.2", "dir:root-unreadable", c.pos(ret), "a scanned directory that cannot be read is reported to the scan function (no file of it is loaded)")
 		default:
 			r.Violation("C01.2", "dir:descend", c.pos(ret), fmt.Sprintf("for a directory entry the callback returns %s under %v: sub-directories would be descended into, or the directory itself skipped", d, g2))
 		}
@@ -294,6 +297,16 @@ func c01Walk(c *Ctx, s *scanShape) {
 	if nDir < 2 {
 		r.Violation("C01.2", "dir:cases", c.U.Pos(cb.Pos()), "the walk callback does not distinguish the scanned directory from sub-directories")
 	}
+}
+
+// c01IsScanFnReport: v is the result of calling the scan function (a function-typed
+// parameter or free variable with four arguments) with a nil Spec and Walk's error.
+func c01IsScanFnReport(cb *ssa.Function, v ssa.Value) bool {
+	call, ok := v.(*ssa.Call)
+	if !ok || call.Call.StaticCallee() != nil || call.Call.IsInvoke() || len(call.Call.Args) != 4 || len(cb.Params) != 3 {
+		return false
+	}
+	return call.Call.Args[0] == ssa.Value(cb.Params[0]) && ir.IsNilConst(call.Call.Args[2]) && call.Call.Args[3] == ssa.Value(cb.Params[2])
 }
 
 // c01Priority: C01.3.
